@@ -61,6 +61,11 @@ CHECKS = {
    "Every line of every traced run (all strings up to the bound, rejected ones up to the error) must be the action actually performed: shifts and gotos with the pushed state, reductions with exact rule text, lookahead and goto state.",
    "Trusted: abstract LR driver (bound to generated code by C01/C08 replays), whitespace-normalised comparison.",
    "3/C17"),
+ "C14": ("exploration",
+   "schedule exploration where the schedule is map iteration order: a build-time source overlay hands every range-over-map in yaccgo to the harness; deviation-bounded exhaustive enumeration (canonical order, then every alternative permutation at each single visit, uniform reversed/rotated policies, two deviating visits on the smallest grammars), output bytes compared; call histories in one process; repeated runs of the native CLI as a free-running pass",
+   "For each corpus grammar and each option set the generated file must be byte-identical under every explored iteration order of every map range, after any history of earlier generation calls, and across repeated native runs. Deviation bound 1 is complete for visits of up to 6 keys (all permutations); larger visits use reversal, rotations and adjacent transpositions (reported as a cap).",
+   "Trusted: the overlay rewriter (repo tests pass under it; every produced order is one Go allows). Assumes map iteration is yaccgo's only nondeterminism.",
+   "3/C14"),
 }
 
 PENDING = {}
